@@ -26,6 +26,15 @@ def no_discard_before_accumulate(R: Report, rule: str, f: FuncInfo, loop: ast.AS
     chunk = ast.unparse(loop.target)
     buf = accumulate_var(loop)
     if buf is None:
+        # carried over in another spelling (`text = tail + decode(chunk)` … `tail = rest`): something assigned in the loop is
+        # joined with what the loop reads — an accumulation these rules do not read, not a missing one
+        stored_in_loop = {t_.id for s_ in walk_local(loop) if isinstance(s_, ast.Assign) for t_ in s_.targets if isinstance(t_, ast.Name)} | \
+            {e_.id for s_ in walk_local(loop) if isinstance(s_, ast.Assign) for t_ in s_.targets if isinstance(t_, ast.Tuple) for e_ in t_.elts if isinstance(e_, ast.Name)}
+        joins = [b_ for b_ in walk_local(loop) if isinstance(b_, ast.BinOp) and isinstance(b_.op, ast.Add) and any(isinstance(x_, ast.Name) and x_.id in stored_in_loop for x_ in (b_.left, b_.right))]
+        if joins:
+            from ..model import AnalysisError as _AE
+
+            raise _AE(f"{f.module.rel}:{loop.lineno}: the read loop carries text over as `{ast.unparse(joins[0])[:50]}` — a shape this rule cannot read (expected `buffer += chunk`)")
         R.ob(rule, f"{label}: every chunk is appended to a carry-over buffer", False, f"{f.module.rel}:{loop.lineno}", "no `buffer += …` in the read loop: a line cut by a chunk boundary is lost")
         return
 
